@@ -141,6 +141,15 @@ def check(ctx):
                     ctx.ok('C02.O1', k2, site(body, mt['cs']),
                            '%s dominated by success edge of %s, unreachable from its failure edge' % (mname, wname),
                            {'ok_edges': re_.ok, 'err_edges': re_.err})
+            # O1b: the fold is not optional once storage accepted the write
+            starts = [e[1] for e in re_.ok]
+            mblocks = [mb for mb, _mt in Ms]
+            if starts and mblocks:
+                every = body.must_pass(starts, mblocks, body.return_blocks())
+                ctx.ob('C02.O1', key + '|fold-on-every-success-path', every, site(body, wt['cs']),
+                       'every path from the success edge of %s to a return folds the set' % wname if every else
+                       'a path returns after storage accepted %s without folding the set: storage is ahead of the set (restart aside, the '
+                       'document is invisible to repair and to will_apply)' % wname)
             # O4: write dominated by the true edge of will_apply
             gates = [(b, t) for b, t in calls if cname(t) == WILL_APPLY]
             good = False
@@ -218,6 +227,20 @@ def check(ctx):
             else:
                 ctx.ok('C02.O2', key + '|record', site(body, wt['cs']),
                        'documents handed to storage are recorded in _%d by a map adaptor chained after the will_apply filter' % rec_vec)
+            for region, edges in (('ok', re_.ok), ('err', re_.err)):
+                starts = [e[1] for e in edges]
+                loops = []
+                for mb, mt in Ms:
+                    if (re_.ok_dominates(mb) if region == 'ok' else re_.err_dominates(mb)):
+                        nb_, nt_ = next_call_feeding(body, flow, mt)
+                        if nb_ is not None:
+                            loops.append(nb_)
+                if starts:
+                    every = bool(loops) and body.must_pass(starts, loops, body.return_blocks())
+                    ctx.ob('C02.O2', key + '|%s-region-folds-on-every-path' % region, every, site(body, wt['cs']),
+                           'every path through the %s region of %s runs its fold loop' % (region.capitalize(), wname) if every else
+                           'the %s region of %s can return without running a fold loop: documents storage wrote never become visible in the set'
+                           % (region.capitalize(), wname))
             err_reach = re_.reachable_from_err()
             for mb, mt in Ms:
                 mname = cname(mt).rsplit('::', 1)[1]
